@@ -21,10 +21,12 @@ from guppylang_internals.checker.core import (
     V,
     Variable,
 )
+from guppylang_internals.checker.errors.linearity import BorrowShadowedError
 from guppylang_internals.checker.expr_checker import ExprSynthesizer, to_bool
 from guppylang_internals.checker.stmt_checker import StmtChecker
 from guppylang_internals.diagnostic import Error, Note
 from guppylang_internals.error import GuppyError
+from guppylang_internals.nodes import InoutReturnSentinel
 from guppylang_internals.tys.param import Parameter
 from guppylang_internals.tys.ty import InputFlags, Type
 
@@ -307,6 +309,13 @@ def check_rows_match(row1: Row[Variable], row2: Row[Variable], bb: BB) -> None:
             # in error messages:
             ident = "Expression" if v1.name.startswith("%") else f"Variable `{v1.name}`"
             use = bb.containing_cfg.live_before[bb][v1.name].vars.used[v1.name]
+            if isinstance(use, InoutReturnSentinel):
+                # The only remaining use is the implicit hand-back of a borrowed
+                # argument, so some path has re-bound its name to another type
+                shadow = v2 if InputFlags.Inout in v1.flags else v1
+                shadow_err = BorrowShadowedError(shadow.defined_at, v1)
+                shadow_err.add_sub_diagnostic(BorrowShadowedError.Rename(None))
+                raise GuppyError(shadow_err)
             err = BranchTypeError(use, ident)
             # We don't add a location to the type hint for the global variable,
             # since it could lead to cross-file diagnostics (which are not
